@@ -138,4 +138,220 @@ theorem stdSort_sorted (lt : α → α → Bool) (h : IsSWO lt) (l : List α) :
   rw [List.pairwise_reverse]
   exact foldl_insStep_sorted h l [] List.Pairwise.nil
 
+
+
+/-! ### sortedness for comparators that are `key a < key b` on the elements being sorted -/
+
+theorem insRev_sortedK (lt : α → α → Bool) (key : α → Rat) (D : α → Prop)
+    (hD : ∀ a b, D a → D b → (lt a b = true ↔ key a < key b))
+    (v : α) (hv : D v) (l : List α) (hl : ∀ x ∈ l, D x)
+    (hs : l.Pairwise (fun a b => key b ≤ key a)) :
+    (insRev lt v l).Pairwise (fun a b => key b ≤ key a) := by
+  induction l with
+  | nil => simp [insRev]
+  | cons e r ih =>
+    rw [List.pairwise_cons] at hs
+    have he : D e := hl e (by simp)
+    have hr : ∀ x ∈ r, D x := fun x hx => hl x (by simp [hx])
+    simp only [insRev]
+    split
+    · rename_i hve
+      have hve' : key v < key e := (hD v e hv he).1 hve
+      rw [List.pairwise_cons]
+      refine ⟨?_, ih hr hs.2⟩
+      intro x hx
+      rcases (insRev_mem lt v r x).1 hx with rfl | hx
+      · exact Rat.le_of_lt hve'
+      · exact hs.1 x hx
+    · rename_i hve
+      have hve' : ¬ key v < key e := fun h => hve ((hD v e hv he).2 h)
+      have hev : key e ≤ key v := Rat.not_lt.1 hve'
+      rw [List.pairwise_cons]
+      refine ⟨?_, List.pairwise_cons.2 hs⟩
+      intro x hx
+      rcases List.mem_cons.1 hx with rfl | hx
+      · exact hev
+      · exact Rat.le_trans (hs.1 x hx) hev
+
+theorem insStep_sortedK (lt : α → α → Bool) (key : α → Rat) (D : α → Prop)
+    (hD : ∀ a b, D a → D b → (lt a b = true ↔ key a < key b))
+    (acc : List α) (v : α) (hv : D v) (hl : ∀ x ∈ acc, D x)
+    (hs : acc.Pairwise (fun a b => key b ≤ key a)) :
+    (insStep lt acc v).Pairwise (fun a b => key b ≤ key a) := by
+  unfold insStep
+  split
+  · simp
+  · rename_i f hf
+    split
+    · rename_i hvf
+      have hne : acc ≠ [] := by intro h0; simp [h0] at hf
+      have hfl : f ∈ acc := List.mem_of_getLast? hf
+      have hvf' : key v < key f := (hD v f hv (hl f hfl)).1 hvf
+      obtain ⟨pre, hpre⟩ : ∃ pre, acc = pre ++ [f] := by
+        refine ⟨acc.dropLast, ?_⟩
+        have h1 := List.dropLast_concat_getLast hne
+        have h2 : acc.getLast hne = f := by
+          have := List.getLast?_eq_some_getLast hne
+          rw [hf] at this; exact (Option.some.inj this).symm
+        rw [h2] at h1; exact h1.symm
+      rw [List.pairwise_append]
+      refine ⟨hs, by simp, ?_⟩
+      intro x hx y hy
+      have hy : y = v := by simpa using hy
+      subst hy
+      have hfx : key f ≤ key x := by
+        subst hpre
+        rw [List.pairwise_append] at hs
+        rcases List.mem_append.1 hx with hx | hx
+        · exact hs.2.2 x hx f (by simp)
+        · have : x = f := by simpa using hx
+          subst this; exact Rat.le_refl
+      grind
+    · exact insRev_sortedK lt key D hD v hv acc hl hs
+
+theorem insStep_mem (lt : α → α → Bool) (acc : List α) (v x : α) :
+    x ∈ insStep lt acc v ↔ x = v ∨ x ∈ acc := by
+  simpa using (insStep_perm lt acc v).mem_iff (a := x)
+
+theorem foldl_insStep_sortedK (lt : α → α → Bool) (key : α → Rat) (D : α → Prop)
+    (hD : ∀ a b, D a → D b → (lt a b = true ↔ key a < key b)) (l : List α) :
+    ∀ acc, (∀ x ∈ l, D x) → (∀ x ∈ acc, D x) → acc.Pairwise (fun a b => key b ≤ key a) →
+      (l.foldl (insStep lt) acc).Pairwise (fun a b => key b ≤ key a) := by
+  induction l with
+  | nil => intro acc _ _ hacc; simpa using hacc
+  | cons v r ih =>
+    intro acc hl hacc hs
+    refine ih _ (fun x hx => hl x (by simp [hx])) ?_ (insStep_sortedK lt key D hD acc v (hl v (by simp)) hacc hs)
+    intro x hx
+    rcases (insStep_mem lt acc v x).1 hx with rfl | hx
+    · exact hl _ (by simp)
+    · exact hacc x hx
+
+/-- if the comparator is `key a < key b` on the elements of `l`, the result is ascending in `key` -/
+theorem stdSort_sorted_key (lt : α → α → Bool) (key : α → Rat) (l : List α)
+    (h : ∀ a ∈ l, ∀ b ∈ l, (lt a b = true ↔ key a < key b)) :
+    (stdSort lt l).Pairwise (fun a b => key a ≤ key b) := by
+  unfold stdSort
+  rw [List.pairwise_reverse]
+  exact foldl_insStep_sortedK lt key (· ∈ l) (fun a b ha hb => h a ha b hb) l [] (fun x hx => hx)
+    (by simp) List.Pairwise.nil
+
+
+
+/-- two coordinates are equal or more than 1 (≥ every tolerance of the planariser) apart -/
+def Apart (a b : Rat) : Prop := a = b ∨ a + 1 < b ∨ b + 1 < a
+
+theorem avg_same (n : Nat) (a : Rat) : ((n : Rat) * a + a) / ((n : Rat) + 1) = a := by
+  have h1 : (n : Rat) * a + a = a * ((n : Rat) + 1) := by grind
+  have h0 : (0 : Rat) ≤ (n : Rat) := by exact_mod_cast Nat.zero_le n
+  have h2 : ((n : Rat) + 1) ≠ 0 := by grind
+  rw [h1, Rat.mul_div_cancel h2]
+
+/-- parts of `partGo`: the first part continues `cur` with the items whose key equals `avg`, every later part
+has a constant, strictly larger key, keys increase from part to part, nothing is lost or reordered -/
+theorem partGo_spec (key : α → Rat) (tol : Rat) (ht0 : 0 ≤ tol) (ht1 : tol < 1) :
+    ∀ (rest cur : List α) (avg : Rat) (n : Nat),
+      (∀ a ∈ cur, key a = avg) →
+      rest.Pairwise (fun a b => key a ≤ key b) → (∀ b ∈ rest, avg ≤ key b) →
+      (∀ b ∈ rest, Apart avg (key b)) → (∀ a ∈ rest, ∀ b ∈ rest, Apart (key a) (key b)) →
+      ∃ first others, partGo key tol rest cur avg n = first :: others ∧
+        (∀ a ∈ first, key a = avg) ∧ (cur ≠ [] → first ≠ []) ∧
+        (∀ p ∈ others, ∀ a ∈ p, avg < key a) ∧
+        (first :: others).flatten = cur.reverse ++ rest ∧
+        (∀ p ∈ others, p ≠ [] ∧ ∃ X, ∀ a ∈ p, key a = X) ∧
+        others.Pairwise (fun p q => ∀ a ∈ p, ∀ b ∈ q, key a < key b) := by
+  intro rest
+  induction rest with
+  | nil =>
+    intro cur avg n hcur _ _ _ _
+    refine ⟨cur.reverse, [], by simp [partGo], ?_, ?_, by simp, by simp, by simp, by simp⟩
+    · intro a ha; exact hcur a (by simpa using ha)
+    · intro h; simpa using h
+  | cons it rest ih =>
+    intro cur avg n hcur hs hle hap1 hap2
+    rw [List.pairwise_cons] at hs
+    have hk : avg ≤ key it := hle it (by simp)
+    have hapk : Apart avg (key it) := hap1 it (by simp)
+    simp only [partGo]
+    split
+    · rename_i hin
+      have hkeq : key it = avg := by
+        unfold absR at hin
+        rcases hapk with h | h | h
+        · exact h.symm
+        · split at hin <;> grind
+        · grind
+      rw [hkeq, avg_same]
+      obtain ⟨first, others, h1, h2, h3, h4, h5, h6, h7⟩ := ih (it :: cur) avg (n + 1)
+        (by intro a ha; rcases List.mem_cons.1 ha with rfl | ha; exact hkeq; exact hcur a ha)
+        hs.2 (fun b hb => hle b (by simp [hb])) (fun b hb => hap1 b (by simp [hb]))
+        (fun a ha b hb => hap2 a (by simp [ha]) b (by simp [hb]))
+      refine ⟨first, others, h1, h2, fun _ => h3 (by simp), h4, ?_, h6, h7⟩
+      rw [h5]; simp
+    · rename_i hin
+      have hgt : avg + 1 < key it := by
+        unfold absR at hin
+        rcases hapk with h | h | h
+        · rw [← h] at hin; exact absurd (by split <;> grind) hin
+        · exact h
+        · grind
+      obtain ⟨first, others, h1, h2, h3, h4, h5, h6, h7⟩ := ih [it] (key it) 1
+        (by intro a ha; have : a = it := by simpa using ha
+            rw [this])
+        hs.2 (fun b hb => hs.1 b hb) (fun b hb => hap2 it (by simp) b (by simp [hb]))
+        (fun a ha b hb => hap2 a (by simp [ha]) b (by simp [hb]))
+      refine ⟨cur.reverse, first :: others, by rw [h1], ?_, ?_, ?_, ?_, ?_, ?_⟩
+      · intro a ha; exact hcur a (by simpa using ha)
+      · intro h; simpa using h
+      · intro p hp a ha
+        rcases List.mem_cons.1 hp with rfl | hp
+        · rw [h2 a ha]; grind
+        · have := h4 p hp a ha; grind
+      · simp only [List.flatten_cons] at h5 ⊢
+        rw [h5]; simp
+      · intro p hp
+        rcases List.mem_cons.1 hp with rfl | hp
+        · exact ⟨h3 (by simp), key it, h2⟩
+        · exact h6 p hp
+      · rw [List.pairwise_cons]
+        refine ⟨?_, h7⟩
+        intro q hq a ha b hb
+        rw [h2 a ha]; exact h4 q hq b hb
+
+
+theorem partition_spec (key : α → Rat) (tol : Rat) (ht0 : 0 ≤ tol) (ht1 : tol < 1) (items : List α)
+    (hap : ∀ a ∈ items, ∀ b ∈ items, Apart (key a) (key b)) :
+    (partition key tol items).flatten.Perm items ∧
+    (∀ p ∈ partition key tol items, p ≠ [] ∧ ∃ X, ∀ a ∈ p, key a = X) ∧
+    (partition key tol items).Pairwise (fun p q => ∀ a ∈ p, ∀ b ∈ q, key a < key b) := by
+  unfold partition
+  have hperm := stdSort_perm (fun a b => decide (key a < key b)) items
+  have hsort := stdSort_sorted_key (fun a b => decide (key a < key b)) key items (by intros; simp)
+  generalize stdSort (fun a b => decide (key a < key b)) items = sorted at hperm hsort
+  match sorted, hperm, hsort with
+  | [], hperm, _ =>
+    have : items = [] := by simpa using hperm.symm
+    subst this; simp
+  | f :: rest, hperm, hsort =>
+    rw [List.pairwise_cons] at hsort
+    have hmem : ∀ x, x ∈ f :: rest → x ∈ items := fun x hx => hperm.mem_iff.1 hx
+    obtain ⟨first, others, h1, h2, h3, h4, h5, h6, h7⟩ := partGo_spec key tol ht0 ht1 rest [f] (key f) 1
+      (by intro a ha; have : a = f := by simpa using ha
+          rw [this])
+      hsort.2 hsort.1 (fun b hb => hap f (hmem f (by simp)) b (hmem b (by simp [hb])))
+      (fun a ha b hb => hap a (hmem a (by simp [ha])) b (hmem b (by simp [hb])))
+    simp only []
+    rw [h1]
+    refine ⟨?_, ?_, ?_⟩
+    · rw [h5]; simpa using hperm
+    · intro p hp
+      rcases List.mem_cons.1 hp with rfl | hp
+      · exact ⟨h3 (by simp), key f, h2⟩
+      · exact h6 p hp
+    · rw [List.pairwise_cons]
+      refine ⟨?_, h7⟩
+      intro q hq a ha b hb
+      rw [h2 a ha]; exact h4 q hq b hb
+
+
 end AdaptaVerif.Lemmas.Planarise
